@@ -104,6 +104,12 @@ def check_text(acc: Acc, ctx: Ctx, engine, vocab, out_vocab, text: str, family: 
             again.parse(text)
             parsed = True
             again.load(engine)
+            # loaded: a fresh rule must have accepted the same text, and both must hold the same expression
+            if outcome == "rejected" or (outcome == "accepted" and again.antecedent.postfix() != rule.antecedent.postfix()):
+                acc.violate("reload-differs", {"fresh": outcome}, case, "rejected" if outcome == "rejected" else rule.antecedent.postfix(),
+                            again.antecedent.postfix() if again.antecedent.is_loaded() else "loaded",
+                            f"{text!r}: parsed into an already loaded rule and loaded again it is accepted as "
+                            f"{again.antecedent.postfix() if again.antecedent.is_loaded() else '?'!r}; a fresh rule is {outcome}")
         except Exception:  # noqa: BLE001
             if parsed and again.is_loaded():
                 acc.violate("loaded-after-failed-load", {"path": "reload"}, case, False, True,
@@ -300,14 +306,16 @@ def check_fll(acc: Acc, text: str, edit: str) -> None:
             fl.FllImporter().from_string(exported)
             acc.traces += 1
             # ... and evaluated: an imported engine that reports itself ready processes finite inputs
-            if obj.rule_blocks and obj.is_ready([]):
+            # (ready or not: a missing operator or a formula naming an unknown variable is a clean ValueError, only later;
+            #  anything else - AttributeError, TypeError, RuntimeError ... - is an internal error)
+            if obj.rule_blocks:
                 for iv in obj.input_variables:
                     iv.value = 0.25
                 try:
                     obj.process()
                     acc.cls("fll_processed")
                 except ALLOWED_REJECTIONS:
-                    acc.cls("fll_late_value_error")  # e.g. a formula naming an unknown variable: a clean value error, only later
+                    acc.cls("fll_late_value_error")
         except Exception as ex:  # noqa: BLE001
             acc.violate("accepted-but-unusable", {"type": type(ex).__name__, "family": "fll"}, case, "exportable",
                         f"{type(ex).__name__}: {ex}", f"imported FLL ({edit}) cannot be exported and re-imported: {type(ex).__name__}: {str(ex)[:100]}")
